@@ -39,7 +39,7 @@ fn set_buf(fd: i32, name: i32, bytes: i32) {
 
 type Fails = Arc<Mutex<Vec<String>>>;
 fn fail(f: &Fails, s: String) {
-    f.lock().unwrap().push(s);
+    f.lock().unwrap_or_else(|e| e.into_inner()).push(s);
 }
 
 /// deterministic payload of connection `id`
@@ -80,7 +80,7 @@ static SOCKS: Mutex<Vec<Box<dyn std::any::Any + Send>>> = Mutex::new(Vec::new())
 /// also reads `io_data`, a reference into the caller's socket object, after it published the coroutine)
 fn park_sock<T: Send + 'static>(t: T) {
     if keepalive() {
-        SOCKS.lock().unwrap().push(Box::new(t));
+        SOCKS.lock().unwrap_or_else(|e| e.into_inner()).push(Box::new(t));
     }
 }
 fn keepalive() -> bool {
@@ -111,16 +111,16 @@ fn settle() {
 fn scenario_end(fails: &Fails) -> Vec<String> {
     settle();
     RELEASE.store(true, Ordering::SeqCst);
-    let ts: Vec<_> = std::mem::take(&mut *THREADS.lock().unwrap());
+    let ts: Vec<_> = std::mem::take(&mut *THREADS.lock().unwrap_or_else(|e| e.into_inner()));
     for t in ts {
         let _ = t.join();
     }
-    KEEP.lock().unwrap().clear();
-    let socks: Vec<_> = std::mem::take(&mut *SOCKS.lock().unwrap());
+    KEEP.lock().unwrap_or_else(|e| e.into_inner()).clear();
+    let socks: Vec<_> = std::mem::take(&mut *SOCKS.lock().unwrap_or_else(|e| e.into_inner()));
     drop(socks);
     // the closes produce epoll events (HUP): let the selectors get through them inside this scenario
     settle();
-    let v = fails.lock().unwrap().clone();
+    let v = fails.lock().unwrap_or_else(|e| e.into_inner()).clone();
     v
 }
 
@@ -177,7 +177,7 @@ fn spawn_thread<F: FnOnce() + Send + 'static>(name: &str, f: F) -> Joiner {
             std::thread::sleep(Duration::from_micros(200));
         }
     });
-    THREADS.lock().unwrap().push(h);
+    THREADS.lock().unwrap_or_else(|e| e.into_inner()).push(h);
     Joiner::Th(st)
 }
 
@@ -186,7 +186,7 @@ fn spawn_actor<F: FnOnce() + Send + 'static>(name: &str, is_co: bool, f: F) -> J
     if is_co {
         let h = unsafe { coroutine::Builder::new().name(name.into()).stack_size(0x4000).spawn(f).unwrap() };
         if keepalive() {
-            KEEP.lock().unwrap().push(h.coroutine().clone());
+            KEEP.lock().unwrap_or_else(|e| e.into_inner()).push(h.coroutine().clone());
         }
         Joiner::Co(h)
     } else {
@@ -274,11 +274,11 @@ fn tcp_pair(l: &TcpListener, a: std::net::SocketAddr) -> (TcpStream, TcpStream) 
     let slot = Arc::new(Mutex::new(None));
     let s2 = slot.clone();
     let c = spawn_thread("setup", move || {
-        *s2.lock().unwrap() = Some(std_connect(a).unwrap());
+        *s2.lock().unwrap_or_else(|e| e.into_inner()) = Some(std_connect(a).unwrap());
     });
     let (s, _) = l.accept().unwrap();
     let _ = c.join();
-    let c = slot.lock().unwrap().take().unwrap();
+    let c = slot.lock().unwrap_or_else(|e| e.into_inner()).take().unwrap();
     (s, c)
 }
 
@@ -960,7 +960,7 @@ pub fn build_cancel(rng: &mut Rng, tier: u32) -> LiveBuilt {
                     self.1.fetch_add(1, Ordering::SeqCst);
                     if let Some(t) = self.0.take() {
                         if keepalive() {
-                            self.2.lock().unwrap().push(Box::new(t));
+                            self.2.lock().unwrap_or_else(|e| e.into_inner()).push(Box::new(t));
                         }
                     }
                 }
@@ -1056,7 +1056,7 @@ pub fn build_cancel(rng: &mut Rng, tier: u32) -> LiveBuilt {
             // middle of its subscribe, long after it blocked)
             let co = victim.coroutine().clone();
             if keepalive() {
-                KEEP.lock().unwrap().push(victim.coroutine().clone());
+                KEEP.lock().unwrap_or_else(|e| e.into_inner()).push(victim.coroutine().clone());
             }
             let do_cancel = move || {
                 if cancel_delay_us > 0 {
@@ -1086,7 +1086,7 @@ pub fn build_cancel(rng: &mut Rng, tier: u32) -> LiveBuilt {
             // the other connections finish on their own, then everything is quiet
             join_all(js, &fails);
             settle();
-            let d: Vec<_> = std::mem::take(&mut *deferred.lock().unwrap());
+            let d: Vec<_> = std::mem::take(&mut *deferred.lock().unwrap_or_else(|e| e.into_inner()));
             drop(d);
             // what the victim owned is closed: the peer reads EOF
             match peer {
@@ -1154,7 +1154,7 @@ pub fn build_cancel_shared(rng: &mut Rng, _tier: u32) -> LiveBuilt {
                 }
                 .unwrap()
             };
-            KEEP.lock().unwrap().push(victim.coroutine().clone());
+            KEEP.lock().unwrap_or_else(|e| e.into_inner()).push(victim.coroutine().clone());
             std::thread::sleep(Duration::from_millis(cancel_after_ms));
             call("co.cancel", 0, 0);
             unsafe { victim.coroutine().cancel() };
@@ -1249,7 +1249,7 @@ pub fn build_unix_iter(rng: &mut Rng, _tier: u32) -> LiveBuilt {
                 })
             }
             .unwrap();
-            KEEP.lock().unwrap().push(server.coroutine().clone());
+            KEEP.lock().unwrap_or_else(|e| e.into_inner()).push(server.coroutine().clone());
             for k in 0..n {
                 call("io.connect_std", 0, 0); // (in thread context UnixStream::connect is the blocking std connect)
                 let r = UnixStream::connect(&path);
